@@ -148,3 +148,7 @@ def build_eashare():
     print('eashare built')
 if __name__ == '__main__' and len(sys.argv) > 1 and sys.argv[1] == 'eashare':
     build_eashare()
+
+if __name__ == '__main__' and len(sys.argv) > 1 and sys.argv[1] == 'bigquota':
+    # bigalloc + quota together (cluster-granular quota accounting)
+    build('bigquota', ['-t', 'ext4', '-O', '^has_journal,bigalloc,quota,metadata_csum,^resize_inode', '-C', '4096', '-I', '256', '-N', '256'], 4096, post=[D])
